@@ -338,6 +338,45 @@ def check_c04(tier, t0):
             items.append({"name": n, "tag": tag, "keys": extra_keys, "case": c, "src": s, "a_text": "\n".join(e["text"] for e in pre["stream"]),
                           "b_text": code, "sample": {"case": n, "variant": tag, "virtual": [e["text"] for e in pre["stream"]][:12],
                                                      "allocated": [e["text"] for e in post["stream"]][:12]}})
+    # ---- the simulation relation, step by step (spec/Lockstep.tla): every register read agrees between the two streams ----
+    import absint
+    lcases = []
+    for it in items:
+        c = it["case"]
+        lcases.append({"pa": absint.annotate_abs(copy.deepcopy(c["pa"])), "pb": absint.annotate_abs(copy.deepcopy(c["pb"])), "dom": c["dom"],
+                       "maxn": 6, "maxlevel": 0, "nrega": c["nrega"]})
+    # binding self-test: the allocated stream of the first case with one read register renamed to a fresh one must be rejected
+    lmut = None
+    for lc in lcases:
+        m = copy.deepcopy(lc)
+        for ins in m["pb"]:
+            rd = [k for k, o in enumerate(ins["a"]) if o[0] == "r" and o[1] < 16 and not (k == 0 and ins.get("out"))]
+            if rd and ins["op"] in ("s", "add", "sub", "mul", "move"):
+                used = {o[1] for i2 in m["pb"] for o in i2["a"] if o[0] == "r"}
+                free = [x for x in range(16) if x not in used]
+                if free:
+                    ins["a"][rd[0]] = ["r", free[0]]
+                    lmut = m
+                break
+        if lmut:
+            break
+    lv, lst = equiv.run_cases("C04_lock", lcases + ([lmut] if lmut else []), batches=8, workers=2, timeout=900 if tier == "thorough" else 300,
+                              single_timeout=120 if tier == "thorough" else 45, spec="Lockstep")
+    if lmut is not None and not any(equiv.is_violation(v) for v in lv[len(lcases)]):
+        raise MachineryError("binding self-test failed: Lockstep.tla accepted an allocated stream that reads a register nobody wrote (%s)" % lv[len(lcases)])
+    lock_viol = 0
+    lock_incon = {}
+    pred_total = sum(1 for it in items if "ra:predicted_clobber" in it.get("keys", []) and it["tag"] == "-")
+    pred_seen = sum(1 for it, vs in zip(items, lv) if "ra:predicted_clobber" in it.get("keys", []) and it["tag"] == "-" and "READ_VALUE_DIFFERS" in vs)
+    for it, vs in zip(items, lv):
+        for v in sorted(vs):
+            if v.startswith("INCONCLUSIVE"):
+                lock_incon[v] = lock_incon.get(v, 0) + 1
+            elif equiv.is_violation(v):
+                lock_viol += 1 if rep.violation([it["name"], it["name"] + "@" + it["tag"]] + it.get("keys", []), v,
+                                                {"property": "C04", "case": it["name"], "variant": it["tag"], "verdict": v, "source": it.get("src"),
+                                                 "a_text": it.get("a_text"), "b_text": it.get("b_text"), "spec": "Lockstep.tla"},
+                                                "case=%s variant=%s lockstep verdict=%s" % (it["name"], it["tag"], v)) else 0
     # programs that need more than 16 registers must be rejected, not emitted
     big = []
     for k in (17, 20, 24):
@@ -360,6 +399,10 @@ def check_c04(tier, t0):
             "produce the same effects (a live value overwritten by another changes an effect for some input); plus: "
             "emitted registers within r0..r15, programs with 17..24 simultaneously live values rejected")
     rc_extra = {"programs_rejected_out_of_registers": rejected, "regalloc_skeletons": len(sks),
+                "lockstep_cases": len(lcases), "clobbers_predicted_by_RegAlloc_tla_and_observed_in_lockstep": "%d of %d" % (pred_seen, pred_total), "lockstep_states": lst["states"], "lockstep_inconclusive": lock_incon,
+                "lockstep_rule": "spec/Lockstep.tla: both streams run line by line against one environment; before every step each register the "
+                                 "instruction reads must hold the same value under its virtual and its physical name (a clobber is seen at the first "
+                                 "read of the destroyed value, whether or not an effect changes inside the bound)",
                 "regalloc_skeletons_with_predicted_clobber": sum(1 for sk in sks if sk["clobbers"]),
                 "allocator_decisions_explained_by_RegAlloc_tla": "%d of %d" % (ra_agree, ra_total)}
     rc = run_equiv_check("C04", tier, t0, items, "model_checking", rule,
